@@ -2,6 +2,7 @@ package main
 
 import (
 	"fmt"
+	"go/ast"
 	"go/token"
 	"go/types"
 	"sort"
@@ -116,28 +117,29 @@ type InputVar struct {
 
 // VC is the per-function generation context.
 type VC struct {
-	ld      *Loader
-	pkg     *Pkg
-	mode    string
-	fn      string // qualified function name
-	decls   []string
-	declSet map[string]string // name -> sort
-	dtypes  []string
-	dtSet   map[string]bool
-	usorts  map[string]bool
-	funs    []string
-	funSet  map[string]bool
-	axioms  []Term // global axioms (e.g. frame axioms of pure apps) always included
-	n       int
-	obls    []*Obligation
-	ordinal map[string]int
-	kinds   map[string]*Kind // heap kinds seen
-	inputs  []InputVar
-	structs map[string]*StructInfo
-	strLits map[string]Term
-	defs    map[string]Term
-	pureApps []PureApp
+	ld            *Loader
+	pkg           *Pkg
+	mode          string
+	fn            string // qualified function name
+	decls         []string
+	declSet       map[string]string // name -> sort
+	dtypes        []string
+	dtSet         map[string]bool
+	usorts        map[string]bool
+	funs          []string
+	funSet        map[string]bool
+	axioms        []Term // global axioms (e.g. frame axioms of pure apps) always included
+	n             int
+	obls          []*Obligation
+	ordinal       map[string]int
+	kinds         map[string]*Kind // heap kinds seen
+	inputs        []InputVar
+	structs       map[string]*StructInfo
+	strLits       map[string]Term
+	defs          map[string]Term
+	pureApps      []PureApp
 	pruneTerminal bool
+	skipBlocks    map[*ast.BlockStmt]bool
 }
 
 type PureApp struct {
